@@ -287,6 +287,7 @@ func runC10(s *spec.Spec, logPath string) {
 			now.UTC().Format(time.RFC3339Nano), zoneOf(now), lk.Why)
 		c.resolved = append(c.resolved, desc)
 		c.sigParts = append(c.sigParts, fmt.Sprintf("%s|%d|%d|%d|%d", m, sect, base, lk.API, curL))
+		setCall("lookup " + desc)
 		reads0 := simrt.ClockReads
 		var l *list.List
 		if pn := safe(func() {
@@ -301,6 +302,7 @@ func runC10(s *spec.Spec, logPath string) {
 		}); pn != nil {
 			c.fail("LOOKUP_PANIC", "lookup_panicked", map[string]string{"call": desc, "panic": fmt.Sprint(pn)})
 		}
+		setCall("")
 		if simrt.ClockReads != reads0 {
 			probesC["clock_read_by_lookup"]++
 		}
